@@ -282,9 +282,13 @@ def apply(state, op, ctx, case):
             return
         state["aspire"] = Aspire.resume_from_file(path, log_likelihood=state["ll"], log_prior=state["lp"])
         state["fitted"] = True
-        minipcn.reset(); emcee.reset()
-        state["aspire"].sample_posterior()
-        state["labels"].add("resume")
+        if op.get("sample", True):
+            minipcn.reset(); emcee.reset()
+            state["aspire"].sample_posterior()
+            state["labels"].add("resume")
+        else:
+            # only rebuilt from the file: what happens next (refit, sampling with some sampler, a context) is up to the history
+            state["labels"].add("resume-without-sampling")
     else:
         raise ValueError(kind)
     _invariant(state, ctx, case, f"step {state['n']} ({kind})")
@@ -336,8 +340,8 @@ def machine(tier, ctx, last):
             self.do({"op": "exit_auto"})
 
         @precondition(lambda self: self.state["fitted"] and not self.state["stack"])
-        @rule()
-        def resume(self):
-            self.do({"op": "resume"})
+        @rule(sample=st.sampled_from([True, True, False]))
+        def resume(self, sample):
+            self.do({"op": "resume", "sample": sample})
 
     return CheckpointFileMachine
